@@ -102,7 +102,8 @@ pub open spec fn strip_nl(b: Seq<u8>) -> Seq<u8> decreases b.len() {
 pub uninterp spec fn regex_clean1(e: Seq<char>) -> Seq<char>;
 pub uninterp spec fn regex_clean2(e: Seq<char>) -> Seq<char>;
 pub uninterp spec fn regex_clean3(e: Seq<char>) -> Seq<char>;
-pub open spec fn regex_cleaned(e: Seq<char>) -> Seq<char> { regex_clean3(regex_clean2(regex_clean1(e))) }
+/// an expression that IS a regular expression is taken as written; only one that is not goes through the three best-effort clean-ups
+pub open spec fn regex_cleaned(e: Seq<char>) -> Seq<char> { if regex_valid(e) { e } else { regex_clean3(regex_clean2(regex_clean1(e))) } }
 /// the pattern that makes `e` match the WHOLE candidate: both anchors apply to the entire expression,
 /// also when `e` has a top-level alternation (`a|b`)
 pub open spec fn whole_line(e: Seq<char>) -> Seq<char> { seq!['^', '(', '?', ':'] + e + seq![')', '$'] }
